@@ -44,10 +44,15 @@ def _run(ctx, e2e):
         case_id = f"cfg{i}"
         if not ctx.mine(i, case_id):
             continue
+        _one(ctx, e2e, i, rng, interp, system, tmin, dt, comp, case_id)
+
+
+def _one(ctx, e2e, i, rng, interp, system, tmin, dt, comp, case_id):
+    if True:
         nv = int(rng.integers(4, 13))
         orders = WF.admissible_orders(interp, nv)
         if not orders:
-            continue
+            return
         order = orders[(i // 7) % len(orders)]
         data_class = "power-law" if (interp != "lsq_poly" or order < 2) else ["power-law", "poly2", "poly3"][min(order, 3) - 1 if i % 2 else 0]
         use_system = comp != "no-symmetry-all-21"
@@ -68,10 +73,10 @@ def _run(ctx, e2e):
                 ctx.violation(f"probe-raises:{type(exc).__name__}:{exc_site(exc)}", exc_text(exc), case_id, sample)
             else:
                 ctx.inconc(f"QHA probe failed: {exc!r}")
-            continue
+            return
         if not (p_hi - p_lo > 1.0):
             ctx.count("generator_skips")
-            continue
+            return
         WF.place_pressures(rng, cfg, p_lo, p_hi, inside=True)
         path = WF.write_dataset(ds, cfg, wd)
         # only the always-valid second reference (arrays the objects were given) runs here; the free-energy reference
@@ -80,8 +85,31 @@ def _run(ctx, e2e):
         ctx.evaluation(cls, (i, interp, order, system, tmin, dt, comp), sample=sample)
         if exc is not None:
             e2e.report_construction_failure(exc, case_id, f"{interp}", {"config": cfg, **sample})
-            continue
+            return
         ctx.count("constructions_completed")
+        _judge(ctx, calc, cls, interp, case_id, sample)
+        # ---- the same data again in the same process on another temperature grid of the same shape: anything kept from the
+        #      first calculation (memoised Bose factors, grids, fits) must not be reused for different temperatures
+        if i % 3 == 0:
+            import copy
+            cfg2 = copy.deepcopy(cfg)
+            q2 = cfg2["qha"]["settings"]
+            q2["T_MIN"] = float(q2["T_MIN"]) + (1.0 if q2["T_MIN"] == 0 else float(q2["DT"]) / 2)
+            path2 = WF.write_dataset(ds, cfg2, wd, settings_name="settings2.yaml")
+            calc2, exc2 = e2e.run(path2, case_id + "-shifted-T", spectrum=None)
+            ctx.evaluation(cls + "|shifted-T-same-shape", (i, "shifted"), sample={**sample, "T_MIN": q2["T_MIN"]})
+            if exc2 is not None:
+                if isinstance(exc2, ValueError) and "PRESSURE" in str(exc2).upper():
+                    ctx.count("shifted_grid_out_of_pressure_range")
+                else:
+                    e2e.report_construction_failure(exc2, case_id, f"{interp}:shifted-T", {"config": cfg2})
+            else:
+                ctx.count("constructions_completed")
+                _judge(ctx, calc2, cls + "|shifted-T", interp, case_id + "-shifted-T", {**sample, "T_MIN": q2["T_MIN"]})
+
+
+def _judge(ctx, calc, cls, interp, case_id, sample):
+    if True:
         t = numpy.asarray(calc.t_array, dtype=float)
         cv = numpy.asarray(calc.qha_calculator.volume_base.heat_capacity, dtype=float)
         nkeys = len(calc.modulus_keys)
